@@ -161,7 +161,24 @@ def isBlockScript (s : List SOp) : Bool :=
   s.any (fun o => match o with | .rBlock _ | .rBlockHeader _ | .rBlockData _ | .rArrBin .. => true | _ => false) &&
   s.all (fun o => match o with | .rBlock _ | .rBlockHeader _ | .rBlockData _ | .rArrBin .. | .rInt .. | .rChars _ | .ret _ | .iTag => true | _ => false)
 
-/-- judge calls that executed exactly one message with exactly one handler whose script is a block script -/
+/-- several units: the block accounting starts afresh in every unit, so the number of chunks refused with -310 in a unit is
+what its own script gives when started with nothing announced — whatever an earlier unit of the message left open -/
+def judgeRefusals (cmds : List Cmd) (events : List String) : List String :=
+  -- split the events at the handler tokens
+  let segs : List (String × List String) := events.foldl (fun (acc : List (String × List String)) e =>
+    if e.startsWith "H" then acc ++ [(e, [])]
+    else match acc.reverse with
+      | [] => acc
+      | (h, es) :: rest => rest.reverse ++ [(h, es ++ [e])]) []
+  (segs.flatMap (fun (h, es) =>
+    let tag := (((h.drop 1).toString.splitOn ":").headD "").toInt?.getD 0
+    let script := (cmds.find? (fun c => c.tag == tag)).map (·.script) |>.getD []
+    if !isBlockScript script then [] else
+    let (_, _, refused) := streamUnit script
+    if (es.filter (· == "E-310")).length != refused then ["C17.overlength_not_refused"] else [])).eraseDups
+
+/-- judge calls that executed exactly one message with exactly one handler whose script is a block script (bytes, item
+count and refusals), and the refusals of every unit of every other call -/
 def judgeBlocks (cmds : List Cmd) (toks : List String) : List String :=
   let (calls, _) := groupCalls toks
   calls.flatMap (fun call =>
@@ -180,8 +197,8 @@ def judgeBlocks (cmds : List Cmd) (toks : List String) : List String :=
         (if call.written == want then []
          else if call.written.filter (fun b => b != 44 && b != 13 && b != 10) == want.filter (fun b => b != 44 && b != 13 && b != 10) then ["C17.item_count"]
          else ["C17.block_encoding"])
-      | _ => []
-    | _ => [])
+      | _ => judgeRefusals cmds m.events
+    | ms => ms.flatMap (fun m => judgeRefusals cmds m.events))
 
 /-- normalised trace for the relational judges: handler / parameter / error events, all output bytes,
 final queue, remainder and registers — without the per-call R / F bookkeeping -/
